@@ -78,7 +78,7 @@ class Plugin:
     RUN_MODULE = "C01.Run"
     GEN = ["Ssdp", "Types", "DateMatchers"]
     DEPENDS = ["C16", "C03", "C08"]
-    CLAUSES = {1: "roundtrip"}
+    CLAUSES = {1: "roundtrip", 2: "roundtrip_nul"}
     SHARD = 60
     SEARCH_CASES = 400
     RULE = ("histories of decode_ssdp_packet calls over 1..5 datagrams (built by build_ssdp_packet from a start line and a "
